@@ -26,6 +26,24 @@ CHECKS = {
         "Exact cascade and envelope are the reference; reachability is a necessary condition only (C04 decides the full profile); R6 finding excluded by an input-only predicate.",
         "DESIGN.md section 5 C03",
     ),
+    "C04": (
+        "Hypothesis @given problems x ladders; utility GCC rebuilt from reported duties vs exact pocket-free envelope, and lexicographic LP (HiGHS) optimum",
+        "Generated-input search (1k quick / 25k thorough): (a) for every ladder the harness rebuilds U(T) from reported duties and utility temperatures and checks 0 <= U <= exact pocket-free GCC at every breakpoint of both curves, plus the table's own H_net_ut vs H_net_actual; (b) for isothermal ladders with levels >= 1 K apart and unambiguous grade order the duties must equal an independent lexicographic LP optimum.",
+        "Exact envelope from the Fraction cascade; HiGHS trusted as optimiser; optimality only claimed where real and shifted level orders agree.",
+        "DESIGN.md section 5 C04",
+    ),
+    "C05": (
+        "Hypothesis @given problems; per-row differential of both problem tables against exact heat-content functions and exact interval CP sums",
+        "Generated-input search (1k quick / 30k thorough): every row of the shifted and the real table of every DI target is compared with the exact hot/cold heat content below T (cold offset = Qc), spans, ends, sign and zero of H_net, and the dT / CP / dH bookkeeping of every interval, including rows inserted by projection, pocket cutting and utility levels.",
+        "Tables are exposed after the pipeline's 4-dp rounding; tolerances are derived from that rounding and the local CP.",
+        "DESIGN.md section 5 C05",
+    ),
+    "C08": (
+        "Hypothesis RuleBasedStateMachine over insertion histories; model = piecewise-linear column functions + CP step functions + expected row set",
+        "Stateful model-based search (1.5k machines x <=12 steps quick / 40k x <=30 thorough): after every insertion call (list, scalar, re-insert, empty; above/below/inside, several per interval, duplicates, within-tolerance, unsorted) all populated curve columns equal the initial piecewise-linear functions, NaN columns stay NaN, rows strictly descending, widths = gap above, CP = interval CP, dH = CP x width, return value = rows added.",
+        "Requested temperatures avoid the ambiguous band around the 1e-6 tolerance; first-row width not asserted (pinned by a unit test).",
+        "DESIGN.md section 5 C08",
+    ),
     "C20": (
         "Hypothesis @given over arrangement x label form x (NTU, c, passes): round-trip, bound, limit and symmetry oracles",
         "Generated-input search (12k quick / 600k thorough cases, 16 shards) against round-trip, counter-flow bound (independent formula), c=0 limit, monotonicity and LMTD bound/symmetry/refusal oracles; scalar float domain is sampled densely with 0/1 boosted, so a wrong formula or dispatch shows within seconds; absence is not proven.",
